@@ -2,6 +2,7 @@ mod agentrun;
 mod build;
 mod cands;
 mod daemon;
+mod e2e;
 mod evalseq;
 mod fakecli;
 mod fakeirrd;
@@ -73,7 +74,7 @@ fn main() {
     }
     // sequential ops: a case that never returns is reported as that case (see util::start_monitor)
     if [
-        "meta", "sched", "cands", "instev", "daemon", "build", "ser", "plan", "sendecho", "multirun",
+        "meta", "sched", "cands", "instev", "daemon", "build", "ser", "plan", "sendecho", "multirun", "e2e",
     ]
     .contains(&op.as_str())
     {
@@ -101,6 +102,7 @@ fn main() {
         "instev" => instev::main(&opts),
         "sendecho" => sendecho::main(&opts),
         "multirun" => multirun::main(&opts),
+        "e2e" => e2e::main(&opts),
         _ => {
             eprintln!("unknown op {op}");
             std::process::exit(2);
